@@ -78,7 +78,7 @@ CLAIMED = {
 REASON = "not claimed yet: model and correspondence check under construction (design in DESIGN.md section 5)"
 NA = {}
 
-HOOK_COMMITS = []
+HOOK_COMMITS = ["d405dba verif hooks: CPI interception and Rent/Clock injection behind --cfg star_frame_verif"]
 
 m = {
  "version": 1,
